@@ -388,22 +388,41 @@ Proof.
 Qed.
 
 (* ================================================================== F. which target each cell of a trainer sees *)
-(* an explicit forward(target) reaches every cell *)
-Theorem targets_used_explicit v dflts : targets_used RN (Some v) dflts = targets_doc RN (Some v) dflts.
-Proof. induction dflts as [|d tl IH]; [reflexivity|]. cbn [targets_used targets_doc map] in *. rewrite IH. reflexivity. Qed.
-(* forward(None): the first cell sees its own default ... *)
-Theorem targets_used_first d tl : hd None (targets_used RN None (d :: tl)) = hd None (targets_doc RN None (d :: tl)).
-Proof. destruct d; reflexivity. Qed.
-(* ... and all cells do when their defaults coincide *)
-Theorem targets_used_same_default d n : targets_used RN None (repeat (Some d) n) = targets_doc RN None (repeat (Some d) n).
+(* forward()'s loop over the cells gives every cell the documented target: the explicit one when given, else its own default *)
+Theorem targets_used_is_doc fwd dflts : targets_used RN fwd dflts = targets_doc RN fwd dflts.
 Proof.
-  destruct n as [|n]; [reflexivity|]. cbn [repeat targets_used targets_doc map]. f_equal.
-  rewrite targets_used_explicit. unfold targets_doc. induction n as [|n IH]; [reflexivity|]. cbn [repeat map]. rewrite IH. reflexivity.
+  induction dflts as [|d tl IH]; [reflexivity|]. cbn [targets_used targets_doc map] in *. rewrite IH.
+  destruct fwd; reflexivity.
 Qed.
-(* REFUTED in general: with different per-cell defaults the later cells are regulated toward the FIRST cell's target *)
-Theorem target_carryover_refuted :
-  exists dflts : list (option R), targets_used RN None dflts <> targets_doc RN None dflts /\
-    targets_used RN None dflts = [Some (1/4); Some (1/4)] /\ targets_doc RN None dflts = [Some (1/4); Some (3/4)].
+Theorem targets_used_explicit v dflts : targets_used RN (Some v) dflts = map (fun _ => Some v) dflts.
+Proof. rewrite targets_used_is_doc. reflexivity. Qed.
+Theorem targets_used_default dflts : targets_used RN None dflts = dflts.
+Proof. rewrite targets_used_is_doc. unfold targets_doc. apply map_id. Qed.
+(* the RuntimeError ("no target at all") is raised exactly for the cells without a default when none is passed *)
+Theorem targets_used_none_iff fwd dflts j :
+  nth j (targets_used RN fwd dflts) (Some 0) = None <-> fwd = None /\ nth j dflts (Some 0) = None.
 Proof.
-  exists [Some (1/4); Some (3/4)]. split; [|split; reflexivity]. cbn. intros E. inversion E. lra.
+  rewrite targets_used_is_doc. unfold targets_doc. revert j. induction dflts as [|d tl IH]; intros j.
+  - destruct j; cbn; split; [discriminate | intros [_ H]; discriminate | discriminate | intros [_ H]; discriminate].
+  - destruct j; cbn [map nth]; [|apply IH]. destruct fwd; split; try discriminate; try (intros [H _]; discriminate); auto.
+    intros [_ H]. exact H.
+Qed.
+
+(* the loop as it was before the repair (6f3edbb): an explicit target reached every cell, the first cell saw its own
+   default, all cells did when their defaults coincided ... *)
+Theorem old_targets_used_explicit v dflts : targets_used_old RN (Some v) dflts = targets_doc RN (Some v) dflts.
+Proof. induction dflts as [|d tl IH]; [reflexivity|]. cbn [targets_used_old targets_doc map] in *. rewrite IH. reflexivity. Qed.
+Theorem old_targets_used_same_default d n : targets_used_old RN None (repeat (Some d) n) = targets_doc RN None (repeat (Some d) n).
+Proof.
+  destruct n as [|n]; [reflexivity|]. cbn [repeat targets_used_old targets_doc map]. f_equal.
+  rewrite old_targets_used_explicit. unfold targets_doc. induction n as [|n IH]; [reflexivity|]. cbn [repeat map]. rewrite IH. reflexivity.
+Qed.
+(* ... but REFUTED in general: with different per-cell defaults the later cells were regulated toward the FIRST cell's target
+   (found by this check, repaired upstream; corpus/C09/04 is the regression case) *)
+Theorem old_target_carryover_refuted :
+  exists dflts : list (option R), targets_used_old RN None dflts <> targets_doc RN None dflts /\
+    targets_used_old RN None dflts = [Some (1/4); Some (1/4)] /\ targets_doc RN None dflts = [Some (1/4); Some (3/4)] /\
+    targets_used RN None dflts = targets_doc RN None dflts.
+Proof.
+  exists [Some (1/4); Some (3/4)]. split; [|repeat split; reflexivity]. cbn. intros E. inversion E. lra.
 Qed.
